@@ -839,12 +839,25 @@ class Interp:
 
     def call_def(self, f, args, kwargs, force_body=False):
         qual = f.qual
+        if qual.startswith('contracts.specs.') and kwargs and f.pyfunc is not None and not force_body:
+            # normalise keyword calls of spec functions to positional (enables summaries)
+            names = [p.arg for p in f.node.args.args]
+            if set(kwargs) <= set(names) and len(args) + len(kwargs) == len(names):
+                try:
+                    args = list(args) + [kwargs[n] for n in names[len(args):]]
+                    kwargs = {}
+                except KeyError:
+                    pass
         if qual == 'contracts.specs.fold':
             from .loops import ghost_fold
             env0 = Env(f.globs, None, qual)
             self.bind(f, env0, args, kwargs)
             v = env0.vars
             return ghost_fold(self, v['step'], v['init'], v['values'], v['k'])
+        if qual.startswith('contracts.specs.') and not kwargs and f.pyfunc is not None and not force_body:
+            r = self.summarised_call(f, args)
+            if r is not None:
+                return r
         c = self.registry.get(qual)
         if c is not None and self.use_contracts and not force_body and not c.inline:
             from .contract import apply_contract
@@ -865,6 +878,135 @@ class Interp:
             return NONE
         finally:
             self.call_depth -= 1
+
+    # ---- summaries of pure spec functions over flat scalar arguments ----------------------
+    SUMMARIES = {}
+
+    def _flat_sig(self, a):
+        if isinstance(a, VNone):
+            return 'N'
+        for cls, tag in ((VBool, 'B'), (VInt, 'I'), (VStr, 'S'), (VAny, 'A'), (VKind, 'K'), (VDType, 'D')):
+            if isinstance(a, cls):
+                return tag
+        if isinstance(a, VTuple):
+            inner = [self._flat_sig(x) for x in a.items]
+            if all(inner):
+                return '(' + ''.join(inner) + ')'
+        return None
+
+    def _placeholder(self, sig, name):
+        from .model import PyVal, Kind
+        if sig == 'N':
+            return NONE, []
+        if sig == 'B':
+            t = z3.Bool(name)
+            return VBool(t), [t]
+        if sig == 'I':
+            t = z3.Int(name)
+            return VInt(t), [t]
+        if sig == 'S':
+            t = z3.String(name)
+            return VStr(t), [t]
+        if sig == 'A':
+            t = z3.Const(name, PyVal)
+            return VAny(t), [t]
+        if sig == 'K':
+            t = z3.Const(name, Kind)
+            return VKind(t), [t]
+        if sig == 'D':
+            k, n = z3.Const(name + '.k', Kind), z3.Bool(name + '.n')
+            return VDType(k, n), [k, n]
+        # tuple
+        inner = self._split_sig(sig[1:-1])
+        vals, terms = [], []
+        for j, sg in enumerate(inner):
+            v, ts = self._placeholder(sg, f'{name}.{j}')
+            vals.append(v)
+            terms.extend(ts)
+        return VTuple(vals), terms
+
+    def _split_sig(self, s):
+        out, depth, cur = [], 0, ''
+        for ch in s:
+            cur += ch
+            if ch == '(':
+                depth += 1
+            elif ch == ')':
+                depth -= 1
+            if depth == 0:
+                out.append(cur)
+                cur = ''
+        return out
+
+    def _leaf_terms(self, v):
+        if isinstance(v, (VBool, VInt, VStr, VAny, VKind)):
+            return [v.t]
+        if isinstance(v, VDType):
+            return [v.kind, v.nullable]
+        if isinstance(v, VTuple):
+            return [t for x in v.items for t in self._leaf_terms(x)]
+        return []
+
+    def _subst(self, v, pairs):
+        sub = lambda t: z3.substitute(t, *pairs) if pairs else t
+        if isinstance(v, VBool):
+            return VBool(sub(v.t))
+        if isinstance(v, VInt):
+            return VInt(sub(v.t))
+        if isinstance(v, VStr):
+            return VStr(sub(v.t))
+        if isinstance(v, VAny):
+            return VAny(sub(v.t))
+        if isinstance(v, VKind):
+            return VKind(sub(v.t))
+        if isinstance(v, VDType):
+            return VDType(sub(v.kind), sub(v.nullable))
+        if isinstance(v, VTuple):
+            return VTuple([self._subst(x, pairs) for x in v.items])
+        if isinstance(v, VNone):
+            return v
+        raise Unsupported('summary result shape')
+
+    def summarised_call(self, f, args):
+        sigs = [self._flat_sig(a) for a in args]
+        if not all(sigs):
+            return None
+        key = (f.qual, tuple(sigs), self.extended)
+        ent = Interp.SUMMARIES.get(key)
+        if ent is None:
+            from .explore import Explorer
+            from . import builtins as B
+            sub = Interp(Explorer(timeout_ms=2000, max_paths=20000), self.src, self.registry, self.extended)
+            sub.loop_specs = self.loop_specs
+            phs, terms = [], []
+            for j, sg in enumerate(sigs):
+                v, ts = sub._placeholder(sg, f'ph!{f.name}!{j}')
+                phs.append(v)
+                terms.append(ts)
+
+            def thunk():
+                try:
+                    return ('return', sub.call_def(f, phs, {}, force_body=True), None)
+                except PyRaise as pr:
+                    return ('raise', pr.exc, None)
+            try:
+                res = sub.ex.explore(thunk)
+                if any(r.kind != 'return' for r in res) or any(r.obligations for r in res):
+                    ent = False
+                else:
+                    merged = B.merge_vals([(z3.And(*r.pc) if r.pc else z3.BoolVal(True), r.value) for r in res])
+                    ent = (terms, merged)
+            except Unsupported:
+                ent = False
+            Interp.SUMMARIES[key] = ent
+        if ent is False:
+            return None
+        terms, merged = ent
+        pairs = []
+        for ts, a in zip(terms, args):
+            for ph, act in zip(ts, self._leaf_terms(a)):
+                pairs.append((ph, act))
+        return self._subst(merged, pairs)
 
     def bind(self, f, env, args, kwargs):
         a = f.node.args
@@ -889,7 +1031,9 @@ class Interp:
                     self.raise_(TypeError)
                 env.vars[p] = defaults[di]
         extra = list(args[n:])
-        if a.vararg:
+        if a.vararg and a.vararg.arg in kwargs and not extra:
+            env.vars[a.vararg.arg] = kwargs.pop(a.vararg.arg)
+        elif a.vararg:
             env.vars[a.vararg.arg] = extra[0] if len(extra) == 1 and isinstance(extra[0], VOpaque) else VTuple(extra)
         elif extra:
             self.raise_(TypeError)
@@ -900,7 +1044,9 @@ class Interp:
                 env.vars[k.arg] = d
             else:
                 self.raise_(TypeError)
-        if a.kwarg:
+        if a.kwarg and a.kwarg.arg in kwargs and isinstance(kwargs[a.kwarg.arg], VOpaque):
+            env.vars[a.kwarg.arg] = kwargs.pop(a.kwarg.arg)
+        elif a.kwarg:
             env.vars[a.kwarg.arg] = kwargs.pop('**') if '**' in kwargs and len(kwargs) == 1 else VDict(kwargs)
         elif kwargs:
             self.raise_(TypeError)
